@@ -57,6 +57,10 @@ func checkInvariants(tApp app.TestApp, height int64, t time.Time) (route, msg st
 			return r.ModuleName + "/" + r.Route, m
 		}
 	}
+	// coherence of derived indexes and custody that no registered invariant covers
+	if n, m := world.ExtendedInvariants(tApp, ctx); n != "" {
+		return "extended:" + n, m
+	}
 	return "", ""
 }
 
@@ -108,6 +112,12 @@ func runHistory(seed uint64, idx, nBlocks int, cnt *Counters) (*finding, int, in
 		height++
 		t = t.Add(world.NextGap(r))
 		if _, p := world.Begin(A, height, t); p != "" {
+			if strings.Contains(p, "UPGRADE") && strings.Contains(p, "NEEDED") {
+				// an enacted software-upgrade plan halts the chain at its height by design
+				// (governance decision, binary switch); not a user-caused halt
+				cnt.Inc("history-ended-by-enacted-upgrade-plan")
+				break
+			}
 			return &finding{height, panicSig(p), p, descs, cfg}, nTx, okTx, sample
 		}
 		cnt.Inc("blocks")
